@@ -97,7 +97,9 @@ def enum_decl(e, vis="pub ", docs=False, derive=True):
     lines.append("#[bitenum(%s)]" % ", ".join(args))
     if derive:
         lines.append("#[derive(Debug, PartialEq, Eq)]")
-    if e.get("repr64"):
+    if e.get("repr"):
+        lines.append("#[repr(%s)]" % e["repr"])
+    elif e.get("repr64"):
         lines.append("#[repr(u64)]")
     lines.append("%senum %s {" % (vis, e["name"]))
     for v in e["variants"]:
